@@ -27,6 +27,31 @@ def node_count(v):
     return 1
 
 
+def est_outcomes(doc, ndesc, nwild):
+    """a generous upper bound on the number of orderings Spec.ND.outcomes would enumerate"""
+    import math
+
+    widths = []
+
+    def walk(v):
+        if isinstance(v, dict):
+            widths.append(len(v))
+            for x in v.values():
+                walk(x)
+        elif isinstance(v, list):
+            for x in v:
+                walk(x)
+
+    walk(doc)
+    perms = 1
+    for w in widths:
+        perms *= math.factorial(w)
+    n = node_count(doc)
+    orders = math.factorial(max(n - 1, 1)) if ndesc else 1
+    est = (orders ** ndesc) * (perms ** max(1, nwild + ndesc))
+    return est
+
+
 def choice_tree(env, compiled, doc, cap):
     import jsonpath_rfc9535 as jp
 
@@ -65,6 +90,12 @@ def explore_c17(rng, tier, res, deep=False):
         q = rng.choice(queries)
         doc = rng.choice(small) if rng.random() < 0.7 else doc_with_all_kinds(rng, 2)
         if node_count(doc) > 9:
+            continue
+        # the enumeration of permitted orderings is exponential: keep it to inputs where it stays small
+        ndesc = q.count("..")
+        nwild = q.count("*") + q.count("?")
+        if est_outcomes(doc, ndesc, nwild) > 3000:
+            res.count("skipped-too-many-permitted-orderings")
             continue
         c = env.compile(q)
         a = real.ast_query(c)
